@@ -264,6 +264,56 @@ def touching_positions(cls, kw, base, ny, nx):
     return [(x - b.ixmin, y), (x + nx - b.ixmax, y), (x, y - b.iymin), (x, y + ny - b.iymax)]
 
 
+def aperture_histories(R, name, cls, kw, pos, posT, fresh, sc, T, canvas, grng):
+    """The SAME aperture object used on the original frame, moved by the embedding offset (in place with += / -=, or
+    by assigning new positions; before or after its first use), then used on the canvas: every output must be the
+    one of a fresh aperture built at the moved positions."""
+    from photutils.aperture import ApertureStats, aperture_photometry
+    D, E, M = canvas
+    d, e, m = sc['data'], sc['error'], sc['mask']
+    off = np.array([T.dx, T.dy], float)
+    how = grng.choice(['iadd after use', 'assign after use', 'isub after use', 'iadd before first use',
+                       'assign before first use'])
+    start = np.asarray(pos, float) + (2 * off if how.startswith('isub') else 0.0)
+    ap = cls([tuple(p) for p in start], **kw)
+    if 'after use' in how:          # fill every cache on the original frame
+        _ = ap.bbox
+        _ = ap.to_mask(method='center')
+        _ = aperture_photometry(d, ap, error=e, mask=m)
+        _ = ap.area_overlap(d)
+        _ = ApertureStats(d, ap).sum
+    if how.startswith('iadd'):
+        ap.positions += off
+    elif how.startswith('isub'):
+        ap.positions -= off
+    else:
+        ap.positions = np.asarray(pos, float) + off
+    det = lambda: {'aperture': name, 'params': kw, 'history': how, 'offset': (T.dx, T.dy),
+                   'positions_now': np.asarray(ap.positions).tolist()[:6], 'bbox_now': [bbox_tuple(b) for b in ap.bbox][:6],
+                   'bbox_fresh': [bbox_tuple(b) for b in fresh.bbox][:6]}
+    tag = f'aperture object moved ({how.split(" ")[0]}) = fresh aperture at the moved positions'
+    R.ok('PixelAperture', tag + ': positions', same(ap.positions, np.asarray(posT, float), False, rtol=0, atol=POS_TOL), det)
+    R.ok('PixelAperture', tag + ': bbox', [bbox_tuple(b) for b in ap.bbox] == [bbox_tuple(b) for b in fresh.bbox], det)
+    ta, tf = aperture_photometry(D, ap, error=E, mask=M), aperture_photometry(D, fresh, error=E, mask=M)
+    R.ok('PixelAperture', tag + ': aperture_photometry',
+         all(same(ta[c], tf[c], False, rtol=RTOL, atol=1e-12) for c in ('xcenter', 'ycenter', 'aperture_sum', 'aperture_sum_err')),
+         lambda: dict(det(), aperture_sum=js(ta['aperture_sum']), aperture_sum_fresh=js(tf['aperture_sum'])))
+    pa, pf = ap.do_photometry(D, error=E, mask=M), fresh.do_photometry(D, error=E, mask=M)
+    R.ok('PixelAperture', tag + ': do_photometry',
+         same(pa[0], pf[0], False, rtol=RTOL, atol=1e-12) and same(pa[1], pf[1], False, rtol=RTOL, atol=1e-12),
+         lambda: dict(det(), sums=js(pa[0]), sums_fresh=js(pf[0])))
+    R.ok('PixelAperture', tag + ': area_overlap',
+         same(np.asarray(ap.area_overlap(D, mask=M)), np.asarray(fresh.area_overlap(D, mask=M)), False, rtol=RTOL, atol=1e-12), det)
+    R.ok('PixelAperture', tag + ': to_mask',
+         all(bbox_tuple(a.bbox) == bbox_tuple(b.bbox) and same(a.data, b.data, False, rtol=RTOL, atol=1e-12)
+             for a, b in zip(ap.to_mask(method='exact'), fresh.to_mask(method='exact'))), det)
+    sa, sf = ApertureStats(D, ap, error=E, mask=M), ApertureStats(D, fresh, error=E, mask=M)
+    R.ok('PixelAperture', tag + ': ApertureStats',
+         all(same(getattr(sa, c), getattr(sf, c), False, rtol=RTOL, atol=1e-12)
+             for c in ('sum', 'sum_err', 'xcentroid', 'ycentroid', 'bbox_xmin', 'bbox_ymax', 'max', 'median', 'sum_aper_area')),
+         lambda: dict(det(), sum=js(sa.sum), sum_fresh=js(sf.sum)))
+
+
 def g_aperture_photometry(sc, T, R, grng):
     from photutils.aperture import aperture_photometry
     ny, nx = sc['ny'], sc['nx']
@@ -322,6 +372,8 @@ def g_aperture_photometry(sc, T, R, grng):
             w1 = m1.data if T.kind == 'shift' else m1.data.T
             R.ok(name, 'mask weights unchanged', same(w1, m0.data, exact, atol=1e-12),
                  lambda: {'params': kw, 'position': pos[k]})
+        if T.kind == 'shift':
+            aperture_histories(R, name, cls, kw, pos, posT, ap1, sc, T, (D, E, M), grng)
 
 
 # ======================================================================================
@@ -597,24 +649,57 @@ def g_find_peaks(sc, T, R, grng):
     ny, nx = sc['ny'], sc['nx']
     d, e, m = sc['data'], sc['error'], sc['mask']
     D, E, M = scene_images(sc, T)
-    thr = sc['bkg'] + grng.uniform(1.2, 6.0)
-    for it in range(4):
+    thr0 = sc['bkg'] + grng.uniform(1.2, 6.0)
+    d_clean, D_clean = d, D
+    for it in range(6):
         box = grng.choice([3, 5, 7, (3, 7), (5, 3), 4])
+        # threshold regimes: above the sky; inside the noise; between 0 (the padding) and the data minimum
+        thr = thr0 if it < 4 else grng.choice([thr0, sc['bkg'] + grng.uniform(0.5, 0.95), grng.uniform(0.0, sc['bkg'] - 0.1)])
+        d, D = d_clean, D_clean
+        nan_desc = None
+        if it >= 3 and grng.random() < 0.75:
+            # non-finite data: isolated NaN pixels next to the sources (inside the centroid boxes of their peaks) and
+            # NaN blocks at least as large as the search box, well inside the frame; padding stays 0
+            d = d_clean.copy()
+            nan_desc = {'pixels': [], 'blocks': []}
+            for s_ in sc['srcs']:
+                if grng.random() < 0.6:
+                    yy_, xx_ = int(round(s_['y0'])) + grng.choice([-2, -1, 1, 2]), int(round(s_['x0'])) + grng.choice([-2, -1, 1, 2])
+                    if 0 <= yy_ < ny and 0 <= xx_ < nx:
+                        d[yy_, xx_] = np.nan
+                        nan_desc['pixels'].append((yy_, xx_))
+            for _ in range(grng.randint(1, 2)):
+                hb, wb = grng.randint(4, 10), grng.randint(4, 10)
+                yb, xb = grng.randint(4, ny - hb - 4), grng.randint(4, nx - wb - 4)
+                d[yb:yb + hb, xb:xb + wb] = np.nan
+                nan_desc['blocks'].append((yb, xb, hb, wb))
+            D = T.img(d, 0.0)
         fp = None
-        if it == 3:
+        if it in (3, 5):
             fp = np.ones((grng.choice([3, 5]), grng.choice([3, 5, 7])), bool)
             fp[0, 0] = False
         bw = grng.choice([None, None, 1, 3, (2, 5)])
-        use_mask = grng.random() < 0.5
+        use_mask = grng.random() < (0.5 if nan_desc is None else 0.3)
         cf = grng.choice([None, centroid_com, centroid_quadratic])
+        if thr < sc['bkg'] + 1.0 and cf is not None:     # hundreds of noise peaks: keep the centroiding cheap
+            cf = centroid_com if grng.random() < 0.5 else None
         if cf is not None and box == 4:      # centroid_sources wants odd boxes
             box = 5
         npk = grng.choice([np.inf, np.inf, 2, 3]) if bw is None else np.inf     # brightest-N selection
         kw = dict(box_size=box, footprint=fp, border_width=bw, mask=m if use_mask else None, centroid_func=cf,
                   npeaks=npk)
         kwT = dict(kw, mask=M if use_mask else None)
-        t0 = find_peaks(d, thr, **kw)
-        t1 = find_peaks(D, thr, **kwT)
+        def call(img, k):
+            try:
+                return find_peaks(img, thr, **k), None
+            except Exception as exc:           # must behave alike in both frames
+                return None, repr(exc)[:300]
+        (t0, ex0), (t1, ex1) = call(d, kw), call(D, kwT)
+        if ex0 or ex1:
+            R.ok('find_peaks', 'raises in both frames or in none', bool(ex0) == bool(ex1),
+                 {'threshold': thr, 'box_size': box, 'border_width': bw, 'mask': use_mask,
+                  'centroid_func': getattr(cf, '__name__', None), 'nan': nan_desc, 'original': ex0, 'canvas': ex1})
+            continue
         p0, p1 = peaks_table(t0), peaks_table(t1)
         p1s = p1 - [T.dx, T.dy, 0]
         if bw is not None:      # restrict the canvas peaks to the zone the original call looks at
@@ -625,6 +710,7 @@ def g_find_peaks(sc, T, R, grng):
             keep = np.ones(len(p1s), bool)
         det = lambda: {'threshold': thr, 'box_size': box, 'footprint': None if fp is None else fp.astype(int).tolist(),
                        'border_width': bw, 'mask': use_mask, 'centroid_func': getattr(cf, '__name__', None),
+                       'nan': nan_desc,
                        'npeaks': None if npk == np.inf else npk,
                        'peaks': p0.tolist()[:30], 'canvas_peaks_minus_offset': p1s[keep].tolist()[:30]}
         R.ok('find_peaks', 'x_peak/y_peak move by (dx,dy), same peaks, same values, same order',
@@ -638,7 +724,7 @@ def g_find_peaks(sc, T, R, grng):
             R.skip('find_peaks', 'centroid-box-not-inside-frame', int((~ins).sum()))
             xc0, yc0 = val(t0['x_centroid']), val(t0['y_centroid'])
             xc1, yc1 = val(t1['x_centroid'])[keep], val(t1['y_centroid'])[keep]
-            R.ok('find_peaks', 'x_centroid/y_centroid move by (dx,dy)',
+            R.ok('find_peaks', 'x_centroid/y_centroid move by (dx,dy)' + (' [NaN pixels in the data]' if nan_desc else ''),
                  moved(xc1[ins], xc0[ins], T.dx) and moved(yc1[ins], yc0[ins], T.dy),
                  lambda: dict(det(), x_centroid=js(xc0), x_centroid_canvas=js(xc1), inside=ins.tolist()))
 
